@@ -25,13 +25,14 @@ type DiskFault struct {
 // C13Case: producers write patch artefacts, storage and transport damage
 // them, a consumer (the last process) applies or translates one.
 type C13Case struct {
-	Sector   int         `json:"sector"`
-	Files    []File      `json:"files"`
-	Procs    []ProcSpec  `json:"procs"`
-	Disk     []DiskFault `json:"disk_faults,omitempty"`
-	Artefact string      `json:"artefact"` // file the consumer reads as a patch
-	Target   string      `json:"target"`   // document the consumer applies it to
-	Skew     []string    `json:"skew,omitempty"`
+	Sector    int         `json:"sector"`
+	FileChunk int         `json:"file_chunk,omitempty"`
+	Files     []File      `json:"files"`
+	Procs     []ProcSpec  `json:"procs"`
+	Disk      []DiskFault `json:"disk_faults,omitempty"`
+	Artefact  string      `json:"artefact"` // file the consumer reads as a patch
+	Target    string      `json:"target"`   // document the consumer applies it to
+	Skew      []string    `json:"skew,omitempty"`
 }
 
 func applyDiskFault(fs, before *simos.FS, f DiskFault, sector int) bool {
@@ -86,6 +87,33 @@ func applyDiskFault(fs, before *simos.FS, f DiskFault, sector int) bool {
 			n[j] = 0
 		}
 		fs.Files[f.File] = n
+	case "crlf":
+		// a text-mode transfer rewrote the line endings
+		fs.Files[f.File] = []byte(strings.ReplaceAll(string(cur), "\n", "\r\n"))
+	case "blank-line", "line-drop", "line-dup", "line-swap":
+		// a record-oriented carrier inserted a separator, lost, duplicated or
+		// reordered a line
+		lines := strings.SplitAfter(string(cur), "\n")
+		if len(lines) == 0 || len(f.Params) == 0 {
+			return false
+		}
+		i := f.Params[0] % len(lines)
+		switch f.Kind {
+		case "blank-line":
+			nl := "\n"
+			if strings.Contains(string(cur), "\r\n") {
+				nl = "\r\n"
+			}
+			lines = append(lines[:i:i], append([]string{nl}, lines[i:]...)...)
+		case "line-drop":
+			lines = append(lines[:i:i], lines[i+1:]...)
+		case "line-dup":
+			lines = append(lines[:i+1:i+1], lines[i:]...)
+		default:
+			j := (i + 1) % len(lines)
+			lines[i], lines[j] = lines[j], lines[i]
+		}
+		fs.Files[f.File] = []byte(strings.Join(lines, ""))
 	case "dup-append":
 		fs.Files[f.File] = append(append([]byte(nil), cur...), cur...)
 	case "append-other":
@@ -269,7 +297,7 @@ func checkC13(c C13Case) (*Violation, []string, *caseInfo) {
 			artefact = append([]byte(nil), fs.Files[c.Artefact]...)
 			target = append([]byte(nil), fs.Files[c.Target]...)
 		}
-		res := runProc(fs, p, c.Sector, prev)
+		res := runProc(fs, p, IOCfg{c.Sector, c.FileChunk}, prev)
 		log = append(log, eventLog(i, res)...)
 		prev = res.Stdout
 		info.Steps += len(res.Steps)
@@ -336,8 +364,11 @@ func genCase13(c *Chooser) C13Case {
 		g.KeyedArr = true
 	}
 	k := c.Range(2, 4)
+	if iv.yaml && c.Chance(1, 10) {
+		g.YAMLFloats = true
+	}
 	docs := lineage(c, g, k)
-	cs := C13Case{Sector: []int{1, 8, 64, 512}[c.Int(4)], Artefact: "p"}
+	cs := C13Case{Sector: []int{1, 8, 64, 512}[c.Int(4)], FileChunk: []int{0, 0, 1, 64}[c.Int(4)], Artefact: "p"}
 	ext := ".json"
 	if iv.yaml {
 		ext = ".yaml"
@@ -363,7 +394,7 @@ func genCase13(c *Chooser) C13Case {
 	np := len(cs.Procs)
 	// faults inside the producer: learn its steps from a fault-free dry run
 	if c.Chance(3, 10) {
-		dry := runProc(fsFromFiles(cs.Files, nil), producer, cs.Sector, nil)
+		dry := runProc(fsFromFiles(cs.Files, nil), producer, IOCfg{cs.Sector, cs.FileChunk}, nil)
 		var cand []simos.Fault
 		for _, st := range dry.Steps {
 			for _, kind := range simos.Applicable(st.Kind) {
@@ -382,7 +413,24 @@ func genCase13(c *Chooser) C13Case {
 		n := 1 + c.Pick(80, 15, 5)
 		for x := 0; x < n; x++ {
 			df := DiskFault{After: np - 1, File: "p"}
-			switch c.Pick(3, 3, 3, 1, 2, 1, 2) {
+			if c.Chance(1, 8) {
+				df.File = "" // filled in below: the target document is damaged instead
+			}
+			switch c.Pick(3, 3, 3, 1, 2, 1, 2, 2, 2, 1, 1, 1) {
+			case 7:
+				df.Kind = "crlf"
+			case 8:
+				df.Kind = "blank-line"
+				df.Params = []int{c.Int(1 << 16)}
+			case 9:
+				df.Kind = "line-drop"
+				df.Params = []int{c.Int(1 << 16)}
+			case 10:
+				df.Kind = "line-dup"
+				df.Params = []int{c.Int(1 << 16)}
+			case 11:
+				df.Kind = "line-swap"
+				df.Params = []int{c.Int(1 << 16)}
 			case 0:
 				df.Kind = "bitrot"
 				for y := 0; y < c.Range(1, 3); y++ {
@@ -468,9 +516,17 @@ func genCase13(c *Chooser) C13Case {
 		cs.Target = "scalar" + ext
 		cs.Skew = append(cs.Skew, "branch-target")
 	}
+	for x := range cs.Disk {
+		if cs.Disk[x].File == "" {
+			cs.Disk[x].File = cs.Target
+		}
+	}
 	var consumer ProcSpec
 	if c.Chance(4, 5) {
 		fl := append(civ.flags(), flagSpec{name: "p"})
+		if c.Chance(1, 4) {
+			fl = append(fl, flagSpec{"o", "result", true, false})
+		}
 		if c.Chance(1, 2) {
 			consumer = ProcSpec{Bin: civ.bin, Argv: renderArgv(c, fl, []string{"p", cs.Target})}
 		} else {
@@ -479,7 +535,11 @@ func genCase13(c *Chooser) C13Case {
 		}
 	} else {
 		t := []string{"jd2patch", "patch2jd", "jd2merge", "merge2jd", "json2yaml", "yaml2json"}[c.Int(6)]
-		consumer = ProcSpec{Bin: civ.bin, Argv: renderArgv(c, []flagSpec{{"t", t, true, false}}, []string{"p"})}
+		tf := []flagSpec{{"t", t, true, false}}
+		if c.Chance(1, 4) {
+			tf = append(tf, flagSpec{"o", "result", true, false})
+		}
+		consumer = ProcSpec{Bin: civ.bin, Argv: renderArgv(c, tf, []string{"p"})}
 	}
 	// faults on the consumer's stdin
 	if consumer.Stdin != nil && c.Chance(1, 5) {
@@ -539,7 +599,7 @@ func shrink13(raw json.RawMessage) []json.RawMessage {
 		var prev []byte
 		for i, p := range c.Procs[:len(c.Procs)-1] {
 			before := fs.Clone()
-			res := runProc(fs, p, c.Sector, prev)
+			res := runProc(fs, p, IOCfg{c.Sector, c.FileChunk}, prev)
 			prev = res.Stdout
 			for _, df := range c.Disk {
 				if df.After == i {
